@@ -91,6 +91,7 @@ def run_workers(pid, tier, seed, plan, tmp, mod, only=None):
     timeout = plan.get('timeout', 1800)
     budget = plan.get('budget_s', timeout * 0.6)
     env = worker_env(getattr(mod, 'WORKER_ENV', None))
+    env['PV_NSHARDS'] = str(shards)
     outs = []
 
     def one(sh):
